@@ -30,6 +30,11 @@ def replay(spec):
                               [(["S"], ["E"], "general", {"rate": "N*S*E/(1 + I)"}), (["E"], ["I"], "general", {"rate": "Q*E + O*t"})],
                               lambda t, s: {"S": -(k1 * s["S"] * s["E"] / (1 + s["I"])), "E": k1 * s["S"] * s["E"] / (1 + s["I"]) - (k2 * s["E"] + k3 * t),
                                             "I": k2 * s["E"] + k3 * t})
+    deg = {"k": k2}
+    cases["shared_dict"] = (["A", "B", "C"],
+                            [([], ["A"], "massaction", {"k": k1}), (["A"], ["B"], "massaction", deg), (["B"], ["C"], "massaction", deg),
+                             (["C", "C"], [], "massaction", deg)],
+                            lambda t, s: {"A": k1 - k2 * s["A"], "B": k2 * s["A"] - k2 * s["B"], "C": k2 * s["B"] - 2 * k2 * s["C"] ** 2})
     names = [spec["model"]] if spec.get("model") in cases else list(cases)
     for name in names:
         species, rx, rhs = cases[name]
